@@ -33,7 +33,7 @@ TRUSTED_EXTRA = ["struct: the layout is modelled and proved (pack/unpack codec);
 # Departures of the code from the TEXT of the statement, confirmed on the real code.  Their law cases are generated only once the
 # finding is registered in known_findings.txt (ids below; proposed lines in harness/props/PROPOSED_FINDINGS_tags.txt), so that the
 # check is green with and without the registration; the matchers are narrow (input class and the observed wrong answer).
-ID_MIXED_FLOOR, ID_MUSL_RAISES, ID_CROSS_MAJOR, ID_IOS_MINOR = "D27", "D41", "D42", "D43"
+ID_MIXED_FLOOR, ID_MUSL_RAISES, ID_CROSS_MAJOR, ID_IOS_MINOR = "D27", "D46-unregistered", "D47", "D48"
 REGISTERED = {f["id"] for f in core.load_findings("C16")}
 SEEK = READ = str(G.DISK_LIMIT)
 
